@@ -171,7 +171,7 @@ Section Link.
 
   Lemma link_facts :
     spec_header bs = Some (hdr, meta) /\ meta_kv meta = Some kv /\ limit = get32 bs hdr /\
-    len bs mod 16384 = 0 /\ 16384 <= len bs /\ limit <= len bs /\ limit mod 32 = 0 /\
+    len bs mod 16384 = 0 /\ 16384 <= len bs /\ limit <= len bs /\ 0 <= limit /\
     (limit = 0 \/ first_off hdr <= limit) /\
     Forall2 (bucket_ok bs hdr limit) buckets tbl /\ pairwise rec_compat (concat tbl) = true /\
     (32 <= hdr /\ hdr + 2052 <= len bs) /\ h < 512 /\ first_off hdr <= s /\ limit <= s /\
@@ -250,7 +250,8 @@ Section Link.
     - destruct (N.eqb_spec head 0); [contradiction|discriminate].
     - destruct (N.eqb_spec head 0); [contradiction|].
       destruct (spec_record bs hdr limit head) as [[[nm nx] v]|] eqn:E; [|discriminate].
-      apply spec_record_inv in E. cbv zeta in E. destruct E as (_ & _ & _ & E & _). lia.
+      apply spec_record_inv in E. cbv zeta in E. destruct E as (_ & _ & _ & E & _).
+      assert (head <= limit) by (eapply N.le_trans; [|exact E]; rewrite <- N.add_assoc; apply N.le_add_r). lia.
   Qed.
 
   Lemma link_new_record :
@@ -289,8 +290,9 @@ Section Link.
 
   Lemma chain_fuel_step : (S (chain_fuel limit) <= chain_fuel e)%nat.
   Proof.
-    destruct link_facts as (_&_&_&_&_&_&?&_&_&_&_&_&_&?&?&_&?).
+    destruct link_facts as (_&_&_&_&_&_&_&_&_&_&_&_&_&?&?&_&?).
     unfold chain_fuel. change c_recordUnit with 32.
+    pose proof Hs32 as Hs32'. pose proof He as He'.
     assert (limit / 32 + 1 <= e / 32) by divlia. lia.
   Qed.
 
@@ -308,7 +310,6 @@ Section Link.
     - eapply spec_header_frame; [exact Eh|rewrite link_len; lia|].
       pose proof (first_off_val hdr) as Efo. apply link_agree; lia.
     - symmetry. apply link_limit.
-    - divlia.
     - (* the table *)
       eapply Forall2_zip_upd; [exact Ht|]. intros i c Hi Hb. unfold bucket_ok in *.
       apply buckets_in in Hi.
@@ -336,7 +337,10 @@ Section Link.
       pose proof (wf_record_in _ _ _ _ _ Ht Hr) as [Hin _].
       pose proof (rec_in_facts _ _ _ _ Hin H3) as (_ & _ & _ & Hend & _).
       unfold rec_compat. apply andb_true_iff. split.
-      + apply orb_true_iff. right. apply N.leb_le. change (r_off (s, name, get64 bs s)) with s. lia.
+      + apply orb_true_iff. right. apply N.leb_le. change (r_off (s, name, get64 bs s)) with s.
+        pose proof (rec_in_facts _ _ _ _ Hin H3) as (Ho32 & _).
+        pose proof Hs32 as Hs32'. unfold r_end, rec_size.
+        set (a := r_off r) in *. set (b := len (r_name r)) in *. clearbody a b. divlia.
       + apply negb_true_iff. apply beq_neq. change (r_name (s, name, get64 bs s)) with name.
         intro X. apply (Hfresh r Hr). now symmetry.
   Qed.
@@ -377,11 +381,11 @@ Section SetVal.
 
   Lemma setval_facts :
     spec_header bs = Some (hdr, meta) /\ meta_kv meta = Some kv /\ limit = get32 bs hdr /\
-    len bs mod 16384 = 0 /\ 16384 <= len bs /\ limit <= len bs /\ limit mod 32 = 0 /\
+    len bs mod 16384 = 0 /\ 16384 <= len bs /\ limit <= len bs /\ 0 <= limit /\
     (limit = 0 \/ first_off hdr <= limit) /\
     Forall2 (bucket_ok bs hdr limit) buckets tbl /\ pairwise rec_compat (concat tbl) = true /\
     (32 <= hdr /\ hdr + 2052 <= len bs) /\ first_off hdr <= off /\ off + 16 + len (r_name r0) <= r_end r0 /\
-    r_end r0 <= limit /\ len bs' = len bs.
+    off + 16 + len (r_name r0) <= limit /\ len bs' = len bs.
   Proof.
     pose proof (spec_read_inv _ _ _ _ _ _ Hread) as (Eh & Ek & El & H1 & H2 & H3 & H4 & H5 & Ht & Hp).
     pose proof (spec_header_inv _ _ _ Eh) as (_ & _ & Hb & _ & Hfit & _).
